@@ -134,3 +134,75 @@ extern "C" void harness_class_chain() {
     for (int i = 0; i < 3; ++i) (void)p.classes[i].release();
     verif_reach();
 }
+
+// C08 dispatch kernel on a table built by the real buildClassTable:
+//   class A { virtual m() -> int { return 10; }  virtual m(int a) -> int { return 11; } }
+//   class B extends A { override m() -> int { return 20; }  n() -> int { return super.m(); } }
+//   class C extends B { override m(int a) -> int { return 31; } }
+// P0 = static class of the variable (0 A, 1 B, 2 C), P1 = dynamic class of the object (>= P0), P2 = call (0: o.m(), 1: o.m(<int>), 2: o.n())
+static std::unique_ptr<MethodDeclaration> returning(const char* name, int nparams, bool isVirtual, bool isOverride, std::unique_ptr<Expression> value) {
+    auto m = method(name, nparams, isVirtual);
+    m->isOverride = isOverride;
+    m->returnType = std::make_unique<PrimitiveType>("int");
+    auto rs = std::make_unique<ReturnStatement>();
+    rs->value = std::move(value);
+    m->body->statements.push_back(std::move(rs));
+    return m;
+}
+static std::unique_ptr<Expression> lit(const char* v) { return std::make_unique<LiteralExpression>(v, "int"); }
+static std::unique_ptr<Expression> memberCall(std::unique_ptr<Expression> object, const char* name, std::vector<std::unique_ptr<Expression>> args) {
+    auto ma = std::make_unique<MemberAccessExpression>();
+    ma->object = std::move(object);
+    ma->member = name;
+    ma->line = verif_nd_int(); ma->column = verif_nd_int();
+    return std::make_unique<CallExpression>(std::move(ma), std::move(args));
+}
+
+extern "C" void harness_dispatch() {
+    const int stat = verif_param(0), dyn = verif_param(1), call = verif_param(2);
+    static const char* names[3] = {"A", "B", "C"};
+    std::unique_ptr<ClassDeclaration> cls[3];
+    for (int i = 0; i < 3; ++i) { cls[i] = std::make_unique<ClassDeclaration>(); cls[i]->name = names[i]; }
+    cls[0]->members.push_back(returning("m", 0, true, false, lit("10")));
+    cls[0]->members.push_back(returning("m", 1, true, false, lit("11")));
+    cls[1]->baseName = {"A"};
+    cls[1]->members.push_back(returning("m", 0, false, true, lit("20")));
+    cls[1]->members.push_back(returning("n", 0, false, false, memberCall(std::make_unique<SuperExpression>(), "m", {})));
+    cls[2]->baseName = {"B"};
+    cls[2]->members.push_back(returning("m", 1, false, true, lit("31")));
+    Program p;
+    for (int i = 0; i < 3; ++i) p.classes.push_back(std::move(cls[i]));
+    RuntimeEvaluator ev(false);
+    ev.buildClassTable(p);
+    RuntimeClass* rdyn = ev.findClass(names[dyn]);
+    verif_assert(rdyn != nullptr, "C08: classes registered");
+    if (rdyn) {
+        auto obj = std::make_shared<Object>();
+        obj->cls = rdyn;
+        obj->skipDestructor = true;
+        ev.beginScope();
+        Value o;
+        o.type = Value::Type::Object;
+        o.objectValue = obj;
+        o.className = names[stat];
+        ev.m_env.back()["o"] = {o, false, true};
+        std::vector<std::unique_ptr<Expression>> args;
+        Value argv;
+        if (call == 1) {
+            // the argument is a variable holding an arbitrary int
+            argv.type = Value::Type::Int;
+            argv.intValue = verif_nd_int();
+            ev.m_env.back()["k"] = {argv, false, true};
+            args.push_back(std::make_unique<VariableExpression>("k"));
+        }
+        auto e = memberCall(std::make_unique<VariableExpression>("o"), call == 2 ? "n" : "m", std::move(args));
+        Value r = ev.eval(e.get());
+        int expect = call == 0 ? (dyn == 0 ? 10 : 20) : call == 1 ? (dyn == 2 ? 31 : 11) : 10;
+        verif_assert(r.type == Value::Type::Int, "C08: the call returns the int the selected body returns");
+        verif_assert(r.intValue == expect, "C08: a virtual call runs the most-derived override of the receiver's dynamic class for the overload "
+                                           "selected by the argument types; super.m() runs the base version");
+        verif_assert(ev.m_env.size() == 1, "C08: the callee's scope is popped");
+    }
+    for (int i = 0; i < 3; ++i) (void)p.classes[i].release();
+    verif_reach();
+}
